@@ -762,7 +762,71 @@ var subPublic = ev.Sub[PublicCase]{Name: "public", Q: 200, T: 5000,
 func TestPublic(t *testing.T) { subPublic.Check(t) }
 
 func TestReplay(t *testing.T) {
-	ev.ReplayTest(t, subDelivery, subLimit, subGarbage, subGarbagePublic, subPublic)
+	ev.ReplayTest(t, subDelivery, subLimit, subGarbage, subGarbagePublic, subPublic, subExpiry)
 }
 
 var _ = sort.Ints
+
+// default expiry: with the default configuration an incomplete message is kept for the documented 10 s - far longer than the
+// buffer sweep period (1 s). Segments that arrive GapMs apart (a sweep falls in between) still reassemble. One slow case per run
+// (seeded change C14/m4: the default had become 10 ns).
+type ExpiryCase struct {
+	GapMs int `json:"gap_ms"`
+}
+
+func runExpiry(c ExpiryCase, k *ev.Case) *ev.Failure {
+	a, b := fakequic.Pair(nil)
+	a.ManualDatagrams = true
+	ta, err := tquic.New(tquic.Config{Connection: a})
+	if err != nil {
+		return ev.Failf("harness", "quic.New: %v", err)
+	}
+	tb, err := tquic.New(tquic.Config{Connection: b})
+	if err != nil {
+		return ev.Failf("harness", "quic.New: %v", err)
+	}
+	defer ta.Close()
+	defer tb.Close()
+	ua, _ := ta.AsUnreliable()
+	ub, _ := tb.AsUnreliable()
+	msg := body(7, 3*P-5)
+	if err := ua.Write(msg); err != nil {
+		return ev.Failf("harness", "write: %v", err)
+	}
+	ds := a.TakeOutbox()
+	if len(ds) < 2 {
+		return ev.Failf("harness", "expected a multi-segment message, got %d datagrams", len(ds))
+	}
+	got := make(chan []byte, 1)
+	go func() {
+		m, err := ub.Read()
+		if err == nil {
+			got <- m
+		}
+	}()
+	for i, d := range ds {
+		if i == len(ds)-1 {
+			time.Sleep(time.Duration(c.GapMs) * time.Millisecond)
+		}
+		b.Inject(d)
+	}
+	k.NonTrivial(ev.JSON(c))
+	select {
+	case m := <-got:
+		if !bytes.Equal(m, msg) {
+			return ev.Failf("C14.1 corrupted", "default expiry: the reassembled message differs (%d vs %d bytes)", len(m), len(msg))
+		}
+	case <-time.After(3 * time.Second):
+		return ev.Failf("C14.3 expired-early", "default configuration (expiry 10 s): a message whose last segment arrived %d ms after the others was never handed up", c.GapMs)
+	}
+	return nil
+}
+
+var subExpiry = ev.Sub[ExpiryCase]{Name: "default-expiry", Run: runExpiry}
+
+func TestDefaultExpiry(t *testing.T) {
+	if ev.ShardIndex() != 0 {
+		t.Skip("shard 0")
+	}
+	subExpiry.One(t, ExpiryCase{GapMs: 1300})
+}
